@@ -35,6 +35,8 @@ BOUND = {
 ASSUMPTIONS = [
     "a token is expressible when it has no backslash at its end and none immediately before a quote character",
     "bare rendering is only used for non-empty tokens free of whitespace, quotes and backslashes",
+    "'unquoted text' in the whitespace clause is text free of quote characters and of backslashes: the backslash is the scheme's escape character and "
+    "glues the character after it (a blank too, as in a\\ b) to the token, which the clause does not speak about",
 ]
 
 ALPHA = "a \t'\"\\-"
